@@ -164,6 +164,8 @@ fn replay_model(w: &Value) -> Option<Result<Vec<String>, String>> {
         replay_history(&b, &hist).map(|x| x.0)
     } else if model == "B spliced trains" {
         replay_history(&props::c03::b_sys(), &hist).map(|x| x.0)
+    } else if let Some(v) = model.strip_prefix("live-sender variant=").and_then(|x| x.parse::<usize>().ok()) {
+        replay_history(&props::c07::LSys::new(v), &hist).map(|x| x.0)
     } else if model.starts_with("slots=") {
         let sys = props::c07::sys_from_name(&model)?;
         replay_history(&sys, &hist).map(|x| x.0)
